@@ -4,6 +4,14 @@
 
 package main
 
+// Functions without a contract that are abstracted wherever they are called (arbitrary
+// result, may modify what their arguments reach): the d-bus client of the camera daemon, the
+// playback tester, argument parsing, the d-bus service. Any other function without a
+// contract is a helper and is executed in place at its call (DESIGN.md 12.15).
+//@ opaque leptondController.SetAutoFFC, leptondController.RestartCamera
+//@ opaque (*cmd/thermal-recorder.CPTVPlaybackTester).Detect, cmd/thermal-recorder.NewCPTVPlaybackTester
+//@ opaque cmd/thermal-recorder.procArgs, cmd/thermal-recorder.startService
+
 // ---------------------------------------------------------------------------
 // C13: Boson raw frames (little-endian 16-bit words, row-major)
 
